@@ -7,7 +7,56 @@ import (
 	"github.com/antlr4-go/antlr/v4"
 	gen "github.com/nyaruka/goflow/antlr/gen/excellent1"
 	"github.com/nyaruka/goflow/envs"
+	"github.com/nyaruka/goflow/excellent"
 )
+
+// Precedence levels of the new expression syntax. Migrated operands are text, and a function like SUM(a, b) becomes
+// the operator expression a + b, so an operand has to be wrapped in parentheses when it binds less tightly than
+// the position it is substituted into.
+const (
+	precConcat   = 7
+	precEquality = 8
+	precCompare  = 9
+	precAdd      = 10
+	precMultiply = 11
+	precExponent = 12
+	precNegation = 13
+	precAtom     = 14
+)
+
+// returns the precedence level of the top-most operator of the given migrated expression
+func precedenceOf(expression string) int {
+	parsed, err := excellent.Parse(expression, nil)
+	if err != nil {
+		return precAtom
+	}
+
+	switch parsed.(type) {
+	case *excellent.Concatenation:
+		return precConcat
+	case *excellent.Equality, *excellent.InEquality:
+		return precEquality
+	case *excellent.LessThan, *excellent.LessThanOrEqual, *excellent.GreaterThan, *excellent.GreaterThanOrEqual:
+		return precCompare
+	case *excellent.Addition, *excellent.Subtraction:
+		return precAdd
+	case *excellent.Multiplication, *excellent.Division:
+		return precMultiply
+	case *excellent.Exponent:
+		return precExponent
+	case *excellent.Negation:
+		return precNegation
+	}
+	return precAtom
+}
+
+// wraps the given migrated expression in parentheses if it binds less tightly than the given level
+func operand(expression string, level int) string {
+	if precedenceOf(expression) < level {
+		return "(" + expression + ")"
+	}
+	return expression
+}
 
 type legacyVisitor struct {
 	gen.BaseExcellent1Visitor
@@ -76,21 +125,21 @@ func (v *legacyVisitor) VisitParentheses(ctx *gen.ParenthesesContext) any {
 
 // VisitNegation deals with negations such as -5
 func (v *legacyVisitor) VisitNegation(ctx *gen.NegationContext) any {
-	return fmt.Sprintf("-%s", v.Visit(ctx.Expression()))
+	return fmt.Sprintf("-%s", operand(v.Visit(ctx.Expression()).(string), precNegation))
 }
 
 // VisitExponentExpression deals with exponenets such as 5^5
 func (v *legacyVisitor) VisitExponentExpression(ctx *gen.ExponentExpressionContext) any {
-	arg1 := v.Visit(ctx.Expression(0))
-	arg2 := v.Visit(ctx.Expression(1))
+	arg1 := operand(v.Visit(ctx.Expression(0)).(string), precExponent)
+	arg2 := operand(v.Visit(ctx.Expression(1)).(string), precExponent+1)
 
 	return fmt.Sprintf("%s ^ %s", arg1, arg2)
 }
 
 // VisitConcatenation deals with string concatenations like "foo" & "bar"
 func (v *legacyVisitor) VisitConcatenation(ctx *gen.ConcatenationContext) any {
-	arg1 := v.Visit(ctx.Expression(0))
-	arg2 := v.Visit(ctx.Expression(1))
+	arg1 := operand(v.Visit(ctx.Expression(0)).(string), precConcat)
+	arg2 := operand(v.Visit(ctx.Expression(1)).(string), precConcat+1)
 
 	return fmt.Sprintf("%s & %s", arg1, arg2)
 }
@@ -113,13 +162,14 @@ func (v *legacyVisitor) VisitAdditionOrSubtractionExpression(ctx *gen.AdditionOr
 
 	if arg1Type == "number" && arg2Type == "number" {
 		// we are adding two numbers
-		return fmt.Sprintf("%s %s %s", arg1, op, arg2)
+		return fmt.Sprintf("%s %s %s", operand(arg1, precAdd), op, operand(arg2, precAdd+1))
 
 	} else if arg1Type == "datetime" && arg2Type == "number" {
 		// we are adding a datetime and a number (of days)
 		template := `datetime_add(%s, %s, "D")`
 		if op == "-" {
 			template = `datetime_add(%s, -%s, "D")`
+			arg2 = operand(arg2, precNegation)
 		}
 
 		return fmt.Sprintf(template, arg1, arg2)
@@ -129,6 +179,7 @@ func (v *legacyVisitor) VisitAdditionOrSubtractionExpression(ctx *gen.AdditionOr
 		template := `datetime_add(%s, %s, "D")`
 		if op == "-" {
 			template = `datetime_add(%s, -%s, "D")`
+			arg2 = operand(arg2, precNegation)
 		}
 
 		if !v.options.RawDates {
@@ -158,13 +209,13 @@ func (v *legacyVisitor) VisitAdditionOrSubtractionExpression(ctx *gen.AdditionOr
 	if op == "+" {
 		return fmt.Sprintf("legacy_add(%s, %s)", arg1, arg2)
 	}
-	return fmt.Sprintf("legacy_add(%s, -%s)", arg1, arg2)
+	return fmt.Sprintf("legacy_add(%s, -%s)", arg1, operand(arg2, precNegation))
 }
 
 // VisitEquality deals with equality or inequality tests 5 = 5 and 5 != 5
 func (v *legacyVisitor) VisitEqualityExpression(ctx *gen.EqualityExpressionContext) any {
-	arg1 := v.Visit(ctx.Expression(0))
-	arg2 := v.Visit(ctx.Expression(1))
+	arg1 := operand(v.Visit(ctx.Expression(0)).(string), precEquality)
+	arg2 := operand(v.Visit(ctx.Expression(1)).(string), precEquality+1)
 
 	if ctx.EQ() != nil {
 		return fmt.Sprintf("%s = %s", arg1, arg2)
@@ -175,8 +226,8 @@ func (v *legacyVisitor) VisitEqualityExpression(ctx *gen.EqualityExpressionConte
 
 // VisitMultiplicationOrDivision deals with division and multiplication such as 5*5 or 5/2
 func (v *legacyVisitor) VisitMultiplicationOrDivisionExpression(ctx *gen.MultiplicationOrDivisionExpressionContext) any {
-	arg1 := v.Visit(ctx.Expression(0))
-	arg2 := v.Visit(ctx.Expression(1))
+	arg1 := operand(v.Visit(ctx.Expression(0)).(string), precMultiply)
+	arg2 := operand(v.Visit(ctx.Expression(1)).(string), precMultiply+1)
 
 	if ctx.TIMES() != nil {
 		return fmt.Sprintf("%s * %s", arg1, arg2)
@@ -187,8 +238,8 @@ func (v *legacyVisitor) VisitMultiplicationOrDivisionExpression(ctx *gen.Multipl
 
 // VisitComparison deals with visiting a comparison between two values, such as 5<3 or 3>5
 func (v *legacyVisitor) VisitComparisonExpression(ctx *gen.ComparisonExpressionContext) any {
-	arg1 := v.Visit(ctx.Expression(0))
-	arg2 := v.Visit(ctx.Expression(1))
+	arg1 := operand(v.Visit(ctx.Expression(0)).(string), precCompare)
+	arg2 := operand(v.Visit(ctx.Expression(1)).(string), precCompare+1)
 
 	return fmt.Sprintf("%s %s %s", arg1, ctx.GetOp().GetText(), arg2)
 }
